@@ -394,6 +394,8 @@ class ProgGen:
         axes = [i for i in range(x.ndim) if self.rng.random() < 0.5] or [self.rng.randrange(x.ndim)]
         if fn in ("max", "min") and any(x.shape[i] == 0 for i in axes):
             raise _Skip
+        if len(axes) > 1 and self.rng.random() < 0.5:
+            self.rng.shuffle(axes)  # NumPy accepts the axes of a reduction in any order
         ax = axes[0] if len(axes) == 1 and self.rng.random() < 0.5 else axes
         if self.rng.random() < 0.15:
             ax = None
